@@ -41,6 +41,10 @@ impl<I: ConnectSyscall> ConnectSyscall for NioConnectSyscall<I> {
         address: *const sockaddr,
         len: socklen_t,
     ) -> c_int {
+        if !crate::syscall::is_socket(fd) {
+            // not a socket, or not open at all: the kernel says so
+            return self.inner.connect(fn_ptr, fd, address, len);
+        }
         let blocking = is_blocking(fd);
         if blocking {
             set_non_blocking(fd);
